@@ -10,6 +10,10 @@ Layers
                header, first / later step, after logging, exchange) over every transport; O on RpcError.error_type /
                error_message / error_kind and — over HTTP, through the recorded raw responses — on status + X-VGI-RPC-Error;
                K: the recorded (status, marker) against the Lean `C07.http` site table.
+  4. opstep  : streams whose (first / later) step is an ORDERED op list — every order of emit / client_log / finish / raise
+               inside one process() call, plus the collector's own failures (second emit, finish on an exchange, no data);
+               O: a failing step reaches the client as the faithful RPC error (and a succeeding one raises none);
+               K: the session's events against Lean `C07.stepWrites` (a failed call writes its logs and the error, never its data).
 """
 
 import contextlib
@@ -19,7 +23,7 @@ from typing import Any
 
 import pyarrow as pa
 
-from harness.common import rpcutil, svcgen
+from harness.common import opsvc, rpcutil, svcgen
 from harness.common.lean import s2j
 from harness.common.svcgen import Config
 
@@ -42,6 +46,8 @@ OBLIGATIONS = [
     "VgiVerif.C07.C07_producer_http",
     "VgiVerif.C07.C07_exchange_pipe",
     "VgiVerif.C07.C07_exchange_http",
+    "VgiVerif.C07.C07_failed_step_writes",
+    "VgiVerif.C07.C07_failed_step_reaches_client",
 ]
 EXTRACTORS = ["gen_c07", "gen_c08"]
 TRUSTED = [
@@ -652,6 +658,164 @@ def site_case(ctx: Any, excs: list[dict[str, Any]], cfg: Config) -> None:
             ctx.fail(dict(base, n=n_err), "C07:http-error-count", f"{cfg.label()}: {n_err} responses carried an error batch, {len(sites)} calls failed")
 
 
+# ------------------------------------------------------------------------------------------ 4. every order of emit / log / finish / raise in one step
+
+STEP_SHAPES: list[list[str]] = [
+    ["raise"], ["log", "raise"], ["emit", "raise"], ["emit", "log", "raise"], ["log", "emit", "raise"], ["log", "emit", "log", "raise"],
+    ["emit", "log", "log", "raise"], ["emit", "finish", "raise"], ["emit", "log", "finish", "raise"], ["finish", "raise"], ["log", "finish", "log", "raise"],
+    ["emit", "emit"], ["emit", "log", "emit"], ["log", "emit", "log", "emit", "log"], ["emit", "finish"], ["emit", "log", "finish"], ["log"], [],
+]
+
+
+def gen_shape(rng: Any) -> list[str]:
+    n = rng.choice([0, 1, 2, 3, 4, 5])
+    shape = [rng.choice(["log", "log", "emit", "emit", "finish"]) for _ in range(n)]
+    if rng.random() < 0.75:
+        shape.append("raise")
+    return shape
+
+
+def shape_ops(shape: list[str], exc: dict[str, Any], tag: str) -> list[list[Any]]:
+    ops: list[list[Any]] = []
+    n_log = n_emit = 0
+    for k in shape:
+        if k == "log":
+            n_log += 1
+            ops.append(["log", L(f"{tag}-log{n_log}", LEVELS[n_log % len(LEVELS)], k=f"v{n_log}")])
+        elif k == "emit":
+            n_emit += 1
+            ops.append(["emit", {"id": 100 + n_emit, "rows": 1}])
+        elif k == "finish":
+            ops.append(["finish"])
+        else:
+            ops.append(["raise", exc])
+    return ops
+
+
+def step_outcome(ops: list[list[Any]], producer: bool) -> tuple[str, Any]:
+    """What one process() call does, from the API's documented rules (independent of the Lean model):
+    ("error", exception view) | ("data", batch) | ("finish", batch | None)."""
+    emitted = None
+    finished = False
+    for op in ops:
+        if op[0] == "emit":
+            if emitted is not None:
+                return "error", {"type": "RuntimeError", "text": "Only one data batch may be emitted per call", "kind": None}
+            emitted = op[1]
+        elif op[0] == "finish":
+            if not producer:
+                return "error", {"type": "RuntimeError", "text": "finish() is not allowed on exchange streams; exchange streams must emit exactly one data batch per call", "kind": None}
+            finished = True
+        elif op[0] == "raise":
+            return "error", svcgen.exc_view(op[1])
+    if finished:
+        return "finish", emitted
+    if emitted is None:
+        return "error", {"type": "RuntimeError", "text": "No data batch was emitted", "kind": None}
+    return "data", emitted
+
+
+def opstep_service(shapes: list[list[str]], excs: list[dict[str, Any]]) -> tuple[dict[str, Any], list[list[Any]]]:
+    """For every shape: a producer and an exchange whose first step is the shape, and a producer and an exchange whose
+    SECOND step is the shape (after a plain emit)."""
+    methods: list[dict[str, Any]] = []
+    script: list[list[Any]] = []
+    plain = {"ops": [["emit", {"id": 1, "rows": 1}]]}
+    for i, shape in enumerate(shapes):
+        e = excs[i % len(excs)]
+        for kind in ("producer", "exchange"):
+            for later in (False, True):
+                name = f"{kind[0]}{i}{'l' if later else 'f'}"
+                step = {"ops": shape_ops(shape, e, name)}
+                methods.append({"name": name, "kind": kind, "header": False, "init_logs": [], "init": "ok", "steps": ([plain] if later else []) + [step],
+                                "shape": shape})
+                if kind == "producer":
+                    script += [["open", name, 1], ["iter", None], ["close"]]
+                else:
+                    script += [["open", name, 1]] + [["send", k] for k in range(2 if later else 1)] + [["close"]]
+    return {"methods": methods}, script
+
+
+def dop(op: list[Any]) -> list[Any]:
+    from harness import c01
+
+    if op[0] == "log":
+        return ["log", c01.dlog(op[1])]
+    if op[0] == "emit":
+        b = op[1]
+        return ["emit", {"id": b["id"], "rows": b.get("rows", 1), "meta": {}}]
+    if op[0] == "raise":
+        return ["raise", c01.dexc(op[1])]
+    return ["finish"]
+
+
+def opstep_case(ctx: Any, shapes: list[list[str]], excs: list[dict[str, Any]], cfg: Config) -> None:
+    from harness import c01
+
+    d, script = opstep_service(shapes, excs)
+    by_name = {m["name"]: m for m in d["methods"]}
+    r = opsvc.run_script(d, script, cfg, deadline=90)
+    base = {"layer": "opstep", "shapes": shapes, "excs": [pack_exc(e) for e in excs], "transport": cfg.label()}
+    fam = "http" if cfg.kind == "http" else "socket"
+    if r["hung"] or len(r["trace"]) != len(script):
+        ctx.case(base, tags=(f"t:{cfg.label()}",))
+        ctx.fail(base, f"C07:hung:{cfg.kind}", f"op-step script did not complete on {cfg.label()} ({len(r['trace'])}/{len(script)} ops)")
+        return
+    calls = c01.split_calls(script, r["trace"])
+    # model: what the server writes for each failing step
+    models: dict[str, Any] = {}
+    if ctx.driver is not None:
+        names = [m["name"] for m in d["methods"]]
+        res = ctx.driver.batch([("C07.opstep", {"producer": by_name[n]["kind"] == "producer", "ops": [dop(o) for o in by_name[n]["steps"][-1]["ops"]]}) for n in names])
+        models = dict(zip(names, res))
+    for name, evs in calls:
+        m = by_name[name]
+        shape = ">".join(m["shape"]) or "nothing"
+        producer = m["kind"] == "producer"
+        kind, what = step_outcome(m["steps"][-1]["ops"], producer)
+        case = dict(base, method=name, shape=shape, kind=m["kind"], later=len(m["steps"]) == 2)
+        ctx.case(case, nontrivial=True, tags=(f"t:{cfg.label()}", f"opstep:{m['kind']}:{kind}", f"shape:{shape}"))
+        if any(e[0] == "raised" for e in evs):
+            bad = next(e for e in evs if e[0] == "raised")
+            ctx.fail(case, f"C07:non-rpc-exception:{bad[1]}:step:{shape}", f"{cfg.label()}: {name}: a non-RpcError exception reached the caller: {bad}")
+            continue
+        errs = [e for e in evs if e[0] == "error"]
+        if kind == "error":
+            # O: the failure of the step reaches the client as an RPC error (class name, text, kind)
+            if not errs:
+                ctx.fail(case, f"C07:error-not-delivered:{m['kind']}-step:{shape}:{fam}",
+                         f"{cfg.label()}: {name}: the step {shape} failed with {what['type']} but the client saw {json.dumps(evs)[:300]}")
+                continue
+            _, typ, msg, knd = errs[0]
+            if typ != what["type"] or what["text"] not in msg or knd != what["kind"]:
+                ctx.fail(case, f"C07:step-error-not-faithful:{m['kind']}:{shape}", f"{cfg.label()}: {name}: got {typ!r} / {msg[:80]!r} / {knd!r}, raised {what}")
+        elif errs:
+            ctx.fail(case, f"C07:spurious-error:{m['kind']}-step:{shape}", f"{cfg.label()}: {name}: step {shape} succeeded but the client saw {errs[0][:3]}")
+        # K: the events of the whole session against the model's item list for the last step (earlier step: one plain batch)
+        if name in models:
+            mod = models[name]
+            pre = [["data", 1, 1, []]] if len(m["steps"]) == 2 else []
+            items = [c01.model_ev(e) for e in mod["items"]]
+            if mod["failed"] != (kind == "error"):
+                ctx.mismatch(case, {"failed": mod["failed"]}, {"outcome": kind}, "op-level step: Lean runOps vs the documented collector rules")
+            if kind == "error":
+                exp = pre + items
+            elif kind == "finish" or producer:
+                exp = pre + items + [["end"]]
+            else:
+                exp = pre + items
+            got = c01.upto_first_error(evs)
+            if cfg.kind != "http":
+                if got != exp:
+                    ctx.mismatch(case, exp, got, "socket family: events of a session whose last step is an op list vs Lean C07.stepWrites")
+            elif c01.obs_of(got) != c01.obs_of(exp):
+                ctx.mismatch(case, c01.obs_of(exp), c01.obs_of(got), "http: observation of a session whose last step is an op list vs Lean C07.stepWrites")
+
+
+def opstep_configs() -> list[Config]:
+    return [Config("pipe"), Config("unix"), Config("tcp"), Config("shm"), Config("http", None, None), Config("http", 1_000_000, "zstd")]
+
+
 def configs() -> list[Config]:
     # caps: none / far above every payload / 64 KiB (below a 100 kB exception text) / 1500 B (below EVERY error payload: an
     # EXCEPTION batch with its traceback is > 1.5 kB, the small successful responses of the site service are < 1.2 kB)
@@ -713,6 +877,15 @@ def run(ctx: Any) -> None:
             excs = stretch(rng, excs)
         for cfg in configs():
             site_case(ctx, excs, cfg)
+    # 4. every order of emit / log / finish / raise inside one step
+    for cfg in opstep_configs():
+        for i in range(0, len(STEP_SHAPES), 6):
+            opstep_case(ctx, STEP_SHAPES[i:i + 6], corpus_excs()[0], cfg)
+    for _ in range(ctx.budget(3, 120)):
+        shapes = [gen_shape(rng) for _ in range(6)]
+        excs = [gen_exc(rng) for _ in range(6)]
+        for cfg in opstep_configs():
+            opstep_case(ctx, shapes, excs, cfg)
     ctx.note("exception_classes", class_names())
 
 
@@ -726,6 +899,11 @@ def replay(ctx: Any, case: dict[str, Any]) -> None:
     elif layer == "peer":
         md = {k.encode(): bytes.fromhex(v) for k, v in case["md"].items() if not v.endswith("…")}
         peer_error_case(ctx, md, "replay")
+    elif layer == "opstep":
+        excs = [unpack_exc(e) for e in case["excs"]]
+        for cfg in opstep_configs():
+            if cfg.label() == case.get("transport"):
+                opstep_case(ctx, case["shapes"], excs, cfg)
     elif layer == "sites":
         excs = [unpack_exc(e) for e in case["excs"] if "arg_len" not in e] or corpus_excs()[0]
         while len(excs) < 8:
